@@ -1,8 +1,7 @@
 SPECIFICATION Spec
 CONSTANTS
   StdMsg <- MCStdMsg
-  Impl416 = TRUE
-  TrimExact = FALSE
+  Modes = {"impl"}
   MaxHops = 0
   Statuses = {400, 401, 403, 404, 416, 418, 429, 500, 503, 599}
   Kinds = {"BODY", "HEAD"}
